@@ -76,6 +76,14 @@ def _worker(args):
         "digests": {}, "harness": None, "samples": [], "nondet": [],
     }
     try:
+        if stride > 1 and hasattr(os, "sched_setaffinity"):
+            # baton hand-offs between the threads of one worker are far
+            # cheaper when they stay on one core
+            try:
+                cpus = sorted(os.sched_getaffinity(0))
+                os.sched_setaffinity(0, {cpus[lo % len(cpus)]})
+            except OSError:
+                pass
         for idx in range(lo, hi, stride):
             if out["runs"] % 50 == 0:
                 faulthandler.dump_traceback_later(300, exit=True)
